@@ -103,7 +103,7 @@ PRED_FUNCS = [
     lambda x: True,
     lambda x: False,
     lambda x: isinstance(x, int) and x > 0,
-    lambda x: hasattr(x, '__len__') and len(x) > 0,
+    lambda x: isinstance(x, A.Collection) and len(x) > 0,
     lambda x: isinstance(x, str) and len(x) >= 2,
 ]
 IS_VALIDATORS = [reg_vale(Is[f], ['fn', str(i)]) for i, f in enumerate(PRED_FUNCS)]
@@ -288,6 +288,11 @@ class ObjGen:
         if origin is T.Literal:
             return r.choice(args)
         if origin is T.Annotated:
+            if r.random() < 0.6:
+                from .model import VALE_REGISTRY
+                w = self.witness(VALE_REGISTRY.get(id(r.choice(h.__metadata__))))
+                if w is not None:
+                    return w
             return self.make(h.__origin__, depth + 1, hashable)
         mk = lambda a, **kw: self.make(a, depth + 1, **kw)
         if origin is tuple:
@@ -368,6 +373,30 @@ class ObjGen:
         if isinstance(origin, type):
             return self.of_class(origin, hashable)
         return self.anything(hashable)
+
+    def witness(self, vm):
+        """An object likely to satisfy the model validator `vm` (None: no idea)."""
+        r = self.rng
+        if not vm:
+            return None
+        k = vm[0]
+        if k == 'eq':
+            a = vm[1]
+            if a == 'none':
+                return None
+            return {'b': lambda: a[1] == 'true', 'i': lambda: int(a[1]), 's': lambda: a[1]}.get(a[0], lambda: None)()
+        if k == 'attr':
+            inner = self.witness(vm[2])
+            return U0(**{vm[1]: inner if inner is not None else r.choice([1, 'ab', [1]])})
+        if k == 'fn':
+            return {'0': 7, '2': 3, '3': [1], '4': 'ab'}.get(vm[1])
+        if k == 'inst':
+            return r.choice([1, 'ab', [1], U0(x=1), True])
+        if k == 'subc':
+            return r.choice([int, U0, U1, str])
+        if k in ('and', 'or'):
+            return self.witness(r.choice(vm[1:]))
+        return None
 
     def hkey(self, mk, a):
         x = mk(a, hashable=True)
